@@ -29,7 +29,7 @@ META = {
                    "loop is left early.",
     "assumptions": ["state-variable names are unique within the file (property quantifier): the name-keyed table does not merge distinct variables",
                     "specs/detectors.spec (DESIGN section 8.2) is the oracle"],
-    "floors": {"R06.walker": 1, "R06.must": 6, "R06.mustnot": 6, "R06.isolate.loop": 6},
+    "floors": {"R06.walker": 1, "R06.lines": 1, "R06.must": 6, "R06.mustnot": 6, "R06.isolate.loop": 6},
 }
 
 
@@ -39,6 +39,9 @@ def run(ctx, crate):
     obs.append(depend.inherited(ctx, crate, "R06.walker", "analyzer::ast::walk_node_for_targets", "the search reaches every nested position (C01's obligations on the walker)",
                                 "C01", lambda o: o.rule in ("R01.children", "R01.order", "R01.once", "R01.uncond", "R01.preorder", "R01.loops", "R01.entry"),
                                 example="the pattern inside !( .. ) or inside a catch body"))
+    # "a line is reported": the line is the detector's location converted by the shared lookup (C02's obligations on the line function and its use)
+    obs.append(depend.inherited(ctx, crate, "R06.lines", "analyzer::utils::get_line_number", "a finding's line is the line its construct begins on (C02's obligations on the line lookup)",
+                                "C02", lambda o: o.rule in ("R02.canon", "R02.range", "R02.plumb"), example="a multi-byte character in a comment before the construct"))
     spec = speccmp.load_spec()
     sm = summary.Summ(crate)
     disp = D.all_dispatch(crate)
